@@ -837,16 +837,56 @@ func runC13(a *runArgs) error {
 		if a.Tier == "thorough" {
 			nD = 600
 		}
-		impNames := []string{"bytes", "io", "sync", "atomic", "time", "os"}
-		impTypes := []string{"bytes.Buffer", "io.Reader", "sync.Mutex", "atomic.Int32", "time.Duration", "os.File"}
+		// named types of packages that share a package name, keyed by import path
+		{
+			src := `package same
+import (ttemplate "text/template"; htemplate "html/template"; mrand "math/rand"; rand2 "math/rand/v2"; tscanner "text/scanner"; gscanner "go/scanner")
+var ( _ *ttemplate.Template; _ *htemplate.Template; _ *mrand.Rand; _ *rand2.Rand; _ *tscanner.Scanner; _ *gscanner.Scanner )
+`
+			sf, err := parser.ParseFile(w.fset, "same.go", src, 0)
+			if err != nil {
+				return err
+			}
+			sp, err := (&types.Config{Importer: w.imp}).Check("same", w.fset, []*ast.File{sf}, nil)
+			if err != nil {
+				return err
+			}
+			for _, q := range [][2]string{{"text/template", "Template"}, {"html/template", "Template"}, {"math/rand", "Rand"},
+				{"math/rand/v2", "Rand"}, {"text/scanner", "Scanner"}, {"go/scanner", "Scanner"}} {
+				for _, imp := range sp.Imports() {
+					if imp.Path() == q[0] {
+						w.named[q[0]+"."+q[1]] = imp.Scope().Lookup(q[1]).Type()
+					}
+				}
+			}
+		}
+		impNames := []string{"bytes", "io", "sync", "atomic", "time", "os", "template", "rand", "scanner", "template1", "rand1"}
+		impTypes := []string{"bytes.Buffer", "io.Reader", "sync.Mutex", "atomic.Int32", "time.Duration", "os.File",
+			"text/template.Template", "html/template.Template", "math/rand.Rand", "math/rand/v2.Rand", "text/scanner.Scanner", "go/scanner.Scanner",
+			"text/template.Template", "html/template.Template", "math/rand.Rand", "math/rand/v2.Rand"}
+		famNames := []string{"template", "rand", "scanner"}
+		famTypes := [][2]string{{"text/template.Template", "html/template.Template"}, {"math/rand.Rand", "math/rand/v2.Rand"}, {"text/scanner.Scanner", "go/scanner.Scanner"}}
+		chkImp := importer.ForCompiler(token.NewFileSet(), "source", nil)
 		for k := 0; k < nD; k++ {
 			var replay []string
 			var orig []types.Type
 			var out2 bytes.Buffer
+			// a third of the cases: two packages of one name are both used, next to a declaration of
+			// that name (or of the first renaming): both imports have to be renamed
+			fam := -1
+			if r.Intn(3) == 0 {
+				fam = r.Intn(len(famNames))
+			}
 			msg := fault(func() {
 				p2 := gogen.NewPackage("main", "main", &gogen.Config{Fset: token.NewFileSet(), Importer: w.imp})
 				for j, n := 0, 1+r.Intn(3); j < n; j++ {
 					name := impNames[r.Intn(len(impNames))]
+					if fam >= 0 && j == 0 {
+						name = famNames[fam]
+						if r.Intn(3) == 0 {
+							name += "1"
+						}
+					}
 					if p2.Types.Scope().Lookup(name) != nil {
 						continue
 					}
@@ -870,6 +910,9 @@ func runC13(a *runArgs) error {
 				}
 				for j := 0; j < 3; j++ {
 					base := w.named[impTypes[r.Intn(len(impTypes))]]
+					if fam >= 0 && j < 2 {
+						base = w.named[famTypes[fam][j]]
+					}
 					var T types.Type
 					switch r.Intn(5) {
 					case 0:
@@ -902,7 +945,7 @@ func runC13(a *runArgs) error {
 			var chk2 *types.Package
 			if err == nil {
 				var errs2 []string
-				chk2, _ = (&types.Config{Importer: importer.ForCompiler(fs2, "source", nil), Error: func(e error) {
+				chk2, _ = (&types.Config{Importer: chkImp, Error: func(e error) {
 					if !strings.Contains(e.Error(), "declared and not used") && !strings.Contains(e.Error(), "imported and not used") {
 						errs2 = append(errs2, e.Error())
 					}
